@@ -8,8 +8,10 @@ reg(Check(
         "the injected ConnectionManager / stream return when their context is done (a Recv that ignores cancellation blocks Remove for ever)",
         "all six Config callbacks are set (a nil callback is simply skipped by the code)",
         "Add/Remove/Reconnect for one name are issued sequentially by the client (different names concurrently)",
+        "a receive timeout of one hour or more does not expire during a run (the model is then told 'no timeout' although the timer goroutine exists)",
+        "time: the model has no clock (backoff and timers are 'eventually fires'); only a lower bound on every observed backoff gap (>= 90% of RetryBaseDelay*(1-RetryRandomization)) is checked at run time; the post-Remove silence is observed for 30 ms (quick) / 300 ms (thorough) at run time, the theorem is unbounded",
     ],
     modelled=["manager/manager.go: Add, Remove, Reconnect, reconnectCtx, retryMonitor, monitor, createConn, subscribe, handleUpdates (incl. the receive-timeout goroutine), handleGNMIUpdate; gRPCMeta only as 'credentials lookup succeeds or fails'; backoff durations abstracted to 'the timer eventually fires'"],
 ),
-    level_text="Theorems in coq/Props/C13.v state the session discipline over a per-target LTS model of manager.go (hidden steps for context cancellation and the select race) for every environment script and every timing of Remove/Reconnect: the callback projection of every producible log is a word of the session language, Connect only after the first message of a stream, updates/syncs delivered in stream order inside the session, one Reset per stream, silence after Remove, refusals of duplicate Add / unknown Remove, and enabledness of the retry loop while managed; the executable acceptance function and the property monitors are proved sound. The model is tied to manager.go by a mode-A correspondence run (real Manager, scripted ConnectionManager / credentials / streams, control actions at every log position) whose logs must be accepted by the model and pass the monitors inside Coq.",
+    level_text="Theorems in coq/Props/C13.v state the session discipline over a per-target LTS model of manager.go (hidden steps for context cancellation and the select race) for every environment script and every timing of Remove/Reconnect: the callback projection of every producible log is a word of the session language, Connect only after the first message of a stream, updates/syncs delivered in stream order inside the session, one Reset per stream, silence after Remove, refusals of duplicate Add / unknown Remove, and enabledness of the retry loop while managed; the executable acceptance function and the property monitors are proved sound. The model is tied to manager.go by a mode-A correspondence run (real Manager, scripted ConnectionManager / credentials / streams, control actions at every log position) whose logs must be accepted by the model and pass the monitors inside Coq; every measured backoff gap must reach the policy's minimum.",
     level_note="Trusted: Coq kernel + vm_compute, the hand-written model (validated on the explored logs only), the Go harness (log order = order of log appends under one mutex). Post-Remove silence is observed for a finite window at run time; backoff durations are not modelled.")
